@@ -42,7 +42,8 @@ def setup(rec, reach):
     _cur["rec"] = rec
     B = common.BpSeq
     for name in ("dot_bracket", "convert_to_dot_bracket", "fcfs"):
-        reach.add(B.__dict__[name], f"BpSeq.{name}")
+        if name in B.__dict__:  # private helpers may be refactored away: the reach map then simply has no entry for them
+            reach.add(B.__dict__[name], f"BpSeq.{name}")
 
 
 def cells():
@@ -193,6 +194,15 @@ def run_case(case, rec):
     rec.mark_nontrivial(f["knotted"] and faulty)
     cell = f"{cfg}/{beh}/{entry}"
     det = lambda extra=None: {"n": n, "pairs": pairs, "cell": cell, "info": extra}
+    derived_first = entry == "convert" and int(core.chash(case)[:2], 16) % 2 == 0
+    if derived_first:
+        # a derived structure is asked for first, while the back-end is still healthy (the source computes and keeps
+        # its optimal notation on the way); under the cell the source must still answer for its own pairs
+        try:
+            b.without_isolated()
+            rec.count("note:derived-structure-requested-first")
+        except Exception:
+            pass
     with _Inject(cfg, beh) as inj:
         try:
             if entry == "getter":
